@@ -41,6 +41,7 @@ let sev_of = function
   | ["cbstopfilter"] -> CbStopFilter | ["cbstopsink"] -> CbStopSink | ["cbstopsource"] -> CbStopSource
   | ["spawn"; w] -> Spawn (role_of w) | ["exit"; w] -> Exit (role_of w) | ["joined"; w] -> Joined (role_of w)
   | ["monrefused"] -> MonMapRefused | ["monret"; r] -> MonMapRet (okb r)
+  | ["startrefused"; w] -> StartRefused (role_of w)
   | l -> failwith ("bad stream event: " ^ String.concat " " l)
 
 let gev_of = function
